@@ -295,8 +295,15 @@ func runC01(r *core.Run) {
 						f, calls, inr, oob := sweepBox(b, op, st.conv)
 						r.Op(calls)
 						r.Dim("calls", "in-range:"+op)
-						_ = inr
-						_ = oob
+						if inr > 0 {
+							r.Outcome(op + ":in-range-delivered")
+						}
+						if oob > 0 {
+							r.Outcome(op + ":out-of-range-or-arity-judged")
+						}
+						if f != nil {
+							r.Outcome(op + ":" + f.Kind)
+						}
 						return f
 					})
 				}
